@@ -3,6 +3,7 @@ CONSTANTS P = 2
           L = 3
           MaxClock = 10
           MaxPeerKa = 2
+          MaxReconnects = 0
           MaxBlocks = 1
 INVARIANT TypeOK
 INVARIANT NoFalseTimeout
